@@ -915,6 +915,17 @@ def rule_utf8_cuts(model, rep):
                   witness="bcrypt.set_backend('os_crypt'); bcrypt.using(ident='2').hash('p\u00e4ssw\u00f6rd') raises PasswordValueError (a character is cut at byte 72) while the bcrypt backend hashes it")
     if n < 2:
         rep.undecided(R, "<instance-count>", f"only {n} byte cuts of the secret found in _norm_digest_args, expected at least 2")
+    # ... and that flag holds for *text* secrets too (they are valid UTF-8 by construction): it starts out as the backend's requirement,
+    # unconditionally, and is only ever lowered for bytes that fail to decode
+    asg = [a for a in walk_no_nested(fn) if isinstance(a, ast.Assign) and ast.unparse(a.targets[0]) == "require_valid_utf8_bytes"]
+    top = [a for a in asg if a in fn.body]
+    others = [a for a in asg if a not in fn.body]
+    ok = len(top) == 1 and ast.unparse(top[0].value) == "cls._require_valid_utf8_bytes" and \
+        all(ast.unparse(a.value) == "False" and unit.enclosing(a, ast.ExceptHandler) is not None for a in others)
+    rep.check(ok, R, site(BC_, "_BcryptCommon._norm_digest_args") + " flag", "; ".join(ast.unparse(a) for a in asg)[:120],
+              "require_valid_utf8_bytes is the backend's requirement for every secret (text included) and is lowered only for bytes that are not valid UTF-8",
+              witness="bcrypt.set_backend('os_crypt'); bcrypt.using(ident='2').hash('\u20acuro1') raises PasswordValueError: the 72-byte repetition ends inside a character because the "
+                      "UTF-8 aware helpers are only enabled for bytes secrets")
 
 
 def rule_load_before_commit(model, rep):
@@ -960,6 +971,8 @@ def run(model, rep):
     rule_f(model, rep)
     rule_g(model, rep)
     rule_load_before_commit(model, rep)
+    from . import shared as _shared
+    _shared.rule_len_after_encode(model, rep, "C03.p-length-in-bytes", ("passlib.handlers",), minimum=15)
     rule_hi(model, rep)
     rule_l(model, rep)
     rule_m(model, rep)
